@@ -591,7 +591,8 @@ class Fn:
                 raise Unsupported(fn, 'the statement that binds %s (end of the translated part) was not found once' % spec['until'])
             head, rest = body[:cut[0] + 1], body[cut[0] + 1:]
             got = dump(rest)
-            if got != spec['rest_hash']:
+            # the statements after the translated part are pinned unless another entry translates the whole method
+            if 'rest_hash' in spec and got != spec['rest_hash']:
                 raise Unsupported(rest[0] if rest else fn, 'the part of %s after the translated statements is pinned and '
                                   'changed (ast hash %s, pinned %s)' % (fn.name, got, spec['rest_hash']))
 
